@@ -204,10 +204,13 @@ class Bits:
 
         """
         bs = self.__class__._create_from_bitstype(bs)
-        s = self._copy() if len(bs) <= len(self) else bs._copy()
         if len(bs) <= len(self):
+            s = self._copy()
             s._addright(bs)
         else:
+            # The result takes the class of the left operand, even if bs is an instance of a subclass.
+            s = self.__class__()
+            s._bitstore = bs._bitstore._copy()
             s._addleft(self)
         return s
 
